@@ -40,6 +40,7 @@ pub fn config_strategy(allow_filter: bool) -> BoxedStrategy<WireConfig> {
             nodes_packets,
             seqs,
             nat_peers: vec![],
+            nat_kind: 0,
             foreign_enr_answer: vec![],
             v_session_timeout_ms: None,
             v_session_capacity: None,
